@@ -46,7 +46,10 @@ def main():
         elif a[i] == "--tier":
             tier = a[i + 1]
         elif a[i] == "--features":
-            features = ["--features", a[i + 1]]
+            features = features + ["--features", a[i + 1]]
+        elif a[i] == "--demo-profile":
+            # some changes only show without debug assertions: run the demonstration with --release
+            features = features + ["--" + a[i + 1]]
         i += 2
     meta_src = json.load(open(os.path.join(src, "seed_meta.json")))
     prop = meta_src.get("property", sid.split("-")[0])
